@@ -47,7 +47,9 @@ class BaseTranslateFilter:
     """
 
     name = "base"
-    re_vars = re.compile(r"(?<!%)%\((\w+)\)s")
+    re_vars = re.compile(r"%\((\w+)\)s")
+    # A percent sign that does not start a `%(name)s` placeholder is literal text.
+    re_literal_percent = re.compile(r"%(?!\(\w+\)s)")
     with_context = True
 
     def __init__(
@@ -75,10 +77,17 @@ class BaseTranslateFilter:
                 for k in self.re_vars.findall(message_text)
             }
 
+        # Only `%(name)s` placeholders are message variables. Every other percent
+        # sign is escaped before printf-style interpolation, so it is output as is
+        # rather than being interpreted as (or failing as) a conversion specifier.
+        escaped = self.re_literal_percent.sub("%%", message_text)
+        if isinstance(message_text, Markup):
+            escaped = Markup(escaped)
+
         # Missing variables get replaced by the current `Undefined` type and we're
         # converting all values to a string, so a KeyError or a ValueError should
         # be impossible.
-        return message_text % _vars
+        return escaped % _vars
 
     def _resolve_translations(self, context: RenderContext) -> Translations:
         return cast(
